@@ -470,7 +470,7 @@ def check_phi_tables(run, path):
                     want(close(m.iloc[i, j], e["etc"][i][j]), "phi_etc", f"id {e['id']} ETC({i + 1},{j + 1}) = {m.iloc[i, j]}, written {e['etc'][i][j]}")
 
 
-def check_results(run, d, with_cor, nothing_checked):
+def check_results(run, d, mats, nothing_checked):
     import numpy as np
     import pandas as pd
 
@@ -522,19 +522,39 @@ def check_results(run, d, with_cor, nothing_checked):
     elif run["has_se"]:
         cnames = [names[k - 1] for k in run["covidx"]]
         cov = res.covariance_matrix
-        want(cov is not None, "covariance_missing", "no covariance matrix although the covariance step succeeded and .cov exists")
+        src = "cov" if "cov" in mats else "cor" if "cor" in mats else "coi"
+        want(src == run.get("covsrc", "cov"), "machinery", "source of the covariance matrix differs from the specification's CovSource")
+        how = {"cov": "read from .cov", "cor": "no .cov file: derived from .cor and the standard errors (D cor D)", "coi": "no .cov / .cor file: derived from .coi (inverse)"}[src]
+        want(cov is not None, "covariance_missing", f"no covariance matrix although the covariance step succeeded and {'/'.join('.' + m for m in mats)} exist")
         want(list(cov.index) == cnames and list(cov.columns) == cnames, "covariance_labels", f"covariance labels {list(cov.index)} != {cnames}")
         E = np.array(run["cov"], dtype=float)
-        want(np.allclose(cov.values, E, rtol=1e-12, atol=0), "covariance_values", f"covariance matrix {cov.values.tolist()} != written {run['cov']}")
+
+        def tol_of(name):
+            # exact for the integer .cov alone; printed precision when the quantity or .cov is read next to other files;
+            # a quantity derived by inversion from printed values: 1e-3
+            if mats == ["cov"]:
+                return 1e-9
+            if name in mats or "cov" in mats or (name, src) == ("cov", "cor"):
+                return 2e-5
+            return 1e-3
+
+        if src == "cov":
+            want(np.allclose(cov.values, E, rtol=1e-12, atol=0), "covariance_values", f"covariance matrix {cov.values.tolist()} != written {run['cov']}")
+        else:
+            t = tol_of("cov")
+            want(np.allclose(cov.values, E, rtol=t, atol=t * float(np.abs(E).max())), "covariance_derived",
+                 f"covariance matrix {np.round(cov.values, 6).tolist()} != {run['cov']} NONMEM computed ({how})")
+            want(np.allclose(cov.values, cov.values.T, rtol=1e-9, atol=1e-12), "covariance_derived", f"covariance matrix not symmetric ({how})")
         cor, coi = res.correlation_matrix, res.precision_matrix
         want(cor is not None and coi is not None, "cor_coi_missing", "correlation / precision matrix missing")
         want(list(cor.index) == cnames and list(coi.index) == cnames and list(cor.columns) == cnames and list(coi.columns) == cnames, "cor_coi_labels", "labels of cor / coi")
         # auxiliary float relations (printed precision when read from the files)
         D = np.sqrt(np.diag(E))
-        tol = 2e-5 if with_cor else 1e-9
         aux += 1
-        want(np.allclose(cor.values, E / np.outer(D, D), rtol=tol, atol=tol), "cor_relation", "correlation matrix != D^-1 cov D^-1")
-        want(np.allclose(coi.values, np.linalg.inv(E), rtol=tol, atol=tol * 1e-2), "coi_relation", "precision matrix != cov^-1")
+        tol = tol_of("cor")
+        want(np.allclose(cor.values, E / np.outer(D, D), rtol=tol, atol=tol), "cor_relation", f"correlation matrix != D^-1 cov D^-1 (files {mats})")
+        tol = tol_of("coi")
+        want(np.allclose(coi.values, np.linalg.inv(E), rtol=tol, atol=tol * 1e-2), "coi_relation", f"precision matrix != cov^-1 (files {mats})")
         want(np.allclose(np.diag(cor.values), 1.0, atol=1e-12), "cor_diagonal", "diagonal of the correlation matrix is not 1")
         want(np.allclose(np.array([ses[n] for n in cnames]), D, rtol=1e-12), "se_relation", "standard errors != sqrt(diag(cov))")
     else:
@@ -708,19 +728,21 @@ def run_case(arg):
             (d / "data.csv").write_text("ID,TIME,DV\n1,0,1\n3,0,2\n7,0,3\n")
             if "sdtab" in case:
                 write_gen(d / "sdtab1", [dict(case["sdtab"], no=1)], ["ID", "PRED", "RES"])
-            with_cor = False
+            mats = sorted(case.get("mats", ["cov"]))
             if 1 in last["codes"]:
                 import numpy as np
 
-                with_cor = rng.random() < 0.5
-                record["with_cor"] = with_cor
-                if not with_cor and rng.random() < 0.6:
+                # which matrix files are in the directory is part of the abstract run (NMTable.tla MatSets)
+                record["mats"] = "+".join(mats)
+                record["covsrc"] = case.get("covsrc", "cov")
+                if mats == ["cov"] and rng.random() < 0.6:
                     record["scale"] = 5
                     case = apply_scale(case, 5)
                     last = case["ext"][-1]
                     write_ext(d / "run1.ext", case)
-                write_cov(d / "run1.cov", case, case["covfile"])
-                if with_cor:  # NONMEM also writes .cor (sd on the diagonal) and .coi; zero rows for fixed parameters
+                if "cov" in mats:
+                    write_cov(d / "run1.cov", case, case["covfile"])
+                if "cor" in mats or "coi" in mats:  # .cor has the sd on the diagonal; zero rows for fixed parameters
                     F = np.array(case["covfile"], dtype=float)
                     nz = [k for k in range(len(F)) if F[k].any()]
                     sub = F[np.ix_(nz, nz)]
@@ -729,18 +751,20 @@ def run_case(arg):
                     np.fill_diagonal(cor, sd)
                     coi = np.linalg.inv(sub)
                     for nm, M in (("cor", cor), ("coi", coi)):
+                        if nm not in mats:
+                            continue
                         full = np.zeros_like(F)
                         full[np.ix_(nz, nz)] = M
                         write_cov(d / f"run1.{nm}", case, full.tolist())
             record["stage"] = "ext_table"
             check_ext_tables(case, d / "run1.ext")
-            if 1 in last["codes"]:
+            if 1 in last["codes"] and "cov" in mats:
                 record["stage"] = "cov_table"
                 check_cov_table(case, d / "run1.cov")
             record["stage"] = "phi_table"
             check_phi_tables(case, d / "run1.phi")
             record["stage"] = "results"
-            aux = check_results(case, d, with_cor, None)
+            aux = check_results(case, d, mats, None)
     except Bad as b:
         record["outcome"] = b.outcome
         return ("violation", record, b.what, aux)
@@ -810,6 +834,8 @@ def main(tier: str, seed: int) -> int:
                     ("design", r["design"], r["cfg"]["om"], r["cfg"]["fix"], len(r["ext"]), r["phikind"], r["zero"]),
                     ("phi", r["phikind"], r["zero"], r["zeta"], r["ext"][-1]["rowset"], r["cfg"]["om"]),
                     ("steps", tuple(t["rowset"] for t in r["ext"]), tuple(r["ext"][0]["iters"]))]
+            if r["has_se"] and not r["design"]:  # which matrix files are present x structure of the matrix
+                keys.append(("mats", tuple(r.get("mats", [])), r["cfg"]["om"], r["cfg"]["fix"]))
             if any(k not in seen for k in keys):
                 seen.update(keys)
                 picked.append(r)
